@@ -9,7 +9,7 @@ import Ggql.Model.CharTables
 namespace Ggql.Driver.C03
 open Ggql Ggql.Scan
 
-def cmOf (tb : Tables) (known : List (List UInt8)) : CM := cmOfTbl tb.valueTbl known
+def cmOf (tb : Tables) (known : List (List UInt8)) : CM := { cmOfTbl tb.valueTbl known with depthLimit := tb.maxParseDepth }
 
 def tailOf : T → Option Tail
   | .atom "eof" => some .eof
